@@ -245,7 +245,9 @@ def run(env, rep):
     dele = c_cmds.get("deleteStream", [])
     ok_del_c = bool(dele) and all(re.search(r"vec!\[Amf0Value::Number\(", x[1]) for x in dele)
     sd = st.get("handle_command_delete_stream", (None, []))[1]
-    ok_del_s = any(t[0] == "mut" and t[2] == "active_streams" and t[1] == "remove" and re.match(r"^&?\(?elem\[0\](?: of \w+)?(?: as Number\.0)?( as u32|\)|$)", t[3][0]) for p in sd for t in p)
+    dels = [t for p in sd for t in p if t[0] == "mut" and t[2] == "active_streams" and t[1] == "remove"]
+    # on every path: the stream removed is the one the command names (its first argument), whatever message stream carried the command
+    ok_del_s = bool(dels) and all(re.match(r"^&?\(?elem\[0\](?: of \w+)?(?: as Number\.0)?( as u32|\)|$)", t[3][0]) for t in dels)
     rep.check("C02.R2", "delete-stream-argument", ok_del_c and ok_del_s, "deleteStream carries the stream id as first argument on both sides", "deleteStream argument position differs")
     # ------------------------------------------------------------------ R3 identity flow of media
     for name, variant in (("publish_audio_data", "AudioData"), ("publish_video_data", "VideoData")):
@@ -344,3 +346,7 @@ def run(env, rep):
         C16.run(env, PrefixReport(rep, "C16.", "C02.R8.", only=("C16.R1", "C16.R2", "C16.R4")))
         C15.run(env, PrefixReport(rep, "C15.", "C02.R8.", only=("C15.R1",)))
         C06.run(env, PrefixReport(rep, "C06.", "C02.R8.", only=("C06.R3",)))
+    if wants(rep, "C02.R9"):
+        # media of every size (0 bytes included) and every message the sessions exchange convert both ways: the body codecs
+        from . import C13
+        C13.run(env, PrefixReport(rep, "C13.R2", "C02.R9", only=("C13.R2",)))
